@@ -29,6 +29,7 @@ type sysFamily struct {
 	own     map[string]bool // properties whose findings this check reports as violations
 	design  *designCheck
 	designT *designCheck // thorough tier (nil = same)
+	scen    []string     // directed scenarios that may precede the tail
 }
 
 type designCheck struct {
@@ -241,6 +242,7 @@ func runSysFamily(c *vf.Ctx, fam sysFamily, nTLC, nRand int) {
 		}()
 	}
 	total, rejected, dropped := 0, 0, 0
+	scenUsed := map[string]int{}
 	for _, cfg := range fam.cfgs {
 		var prefixes [][]sys.Stim
 		if nTLC > 0 {
@@ -260,6 +262,13 @@ func runSysFamily(c *vf.Ctx, fam sysFamily, nTLC, nRand int) {
 			}
 			ts := &tailState{Marks: map[string]int{}, Notes: map[string]string{}}
 			ts.mark(w, "prefix")
+			if len(fam.scen) > 0 {
+				if sc := runScenario(w, rng, fam.scen...); sc != "" {
+					ts.Notes["scenario"] = sc
+					scenUsed[sc]++
+				}
+				ts.mark(w, "scenario")
+			}
 			if fam.tail != nil {
 				fam.tail(w, rng, ts)
 			}
@@ -325,6 +334,7 @@ func runSysFamily(c *vf.Ctx, fam sysFamily, nTLC, nRand int) {
 		}
 	}
 	dwg.Wait()
+	c.Cov["directed_scenarios_run"] = scenUsed
 	c.Cov["runs_recorded"] = total
 	c.Cov["runs_rejected_by_trace_validation"] = rejected
 	c.Cov["runs_not_quiescent_dropped"] = dropped
